@@ -79,13 +79,13 @@ def judge_base(c, jr, ti):
         if 'crash' in n:
             return out
         tags = set((n.get('info') or {}).get('tags', []))
-        exp = legacy_expected_tags(jr, tr, tr['direct'])
+        exp = legacy_expected_tags(jr, tr, legacy_direct(jr, c['txns'][ti], tr))
         if tags != exp:
-            v1, _ = c01.legacy_verdicts(jr, tr)
+            v1, _ = c01.legacy_verdicts(jr, tr, c['txns'][ti])
             sig = SIG_F1 if v1 is not None and legacy_expected_tags(jr, tr, v1) == tags else None
             out.append(('union', {'why': 'legacy loop: tag set is not the union of the tags of the rows whose regex matches and modifiers hold',
                                   'expected': sorted(exp), 'observed': sorted(tags),
-                                  'matching_rows': [r['pattern'] for r, d in zip(jr['rules'], tr['direct']) if d]}, sig))
+                                  'matching_rows': [r['pattern'] for r, d in zip(jr['rules'], legacy_direct(jr, c['txns'][ti], tr)) if d]}, sig))
     return out
 
 
@@ -288,7 +288,7 @@ def main(tier):
                 if 'crash' in tr['norm']:
                     aborted += 1
                     continue
-                per = [frozenset(resolved_tags_spec(r, d)) for r, x, d in zip(jr['rules'], tr['direct'], tr['oracle']['dyn']) if x]
+                per = [frozenset(resolved_tags_spec(r, d)) for r, x, d in zip(jr['rules'], legacy_direct(jr, t, tr), tr['oracle']['dyn']) if x]
             per = [p for p in per if p]
             hist_add(contrib_hist, len(per))
             if len(set(per)) >= 2:
